@@ -14,7 +14,7 @@ mkdir -p $lab/verif
 # the COMMITTED state of /verif (so that edits in progress do not leak into the lab); file times are kept per content so that
 # cargo does not rebuild what did not change
 rm -rf $lab/export && mkdir -p $lab/export && git -C /verif archive HEAD -- check sim known_findings.json properties.jsonl tools | tar -x -C $lab/export
-rsync -a --checksum --delete --exclude target --exclude replays --exclude evidence $lab/export/ $lab/verif/
+rsync -rlpc --delete --exclude target --exclude replays --exclude evidence $lab/export/ $lab/verif/
 mkdir -p $lab/verif/evidence $lab/verif/replays
 grep -rl '"/repo' $lab/verif/sim/*/Cargo.toml | xargs sed -i "s#\"/repo#\"$lab/repo#g"
 git -C $lab/repo apply "$patch" || { echo "seedlab: patch does not apply" >&2; exit 2; }
